@@ -100,6 +100,7 @@ namespace cdsv {
         size_t wgl_budget = 30000;
         bool ordered = true;          // traversal must be strictly increasing by key
         bool check_size = true;       // item counter configured: size()/empty() exact at quiescence
+        double round_watchdog_s = 90;  // wall-clock watchdog for one round (a round normally takes well under 0.1 s)
         uint64_t recreate_every = 400; // rounds between re-creations of the container (0 = never)
         unsigned stable_low_keys = 0; // keys [0, stable_low_keys) are inserted once and only looked up (arms the extract_min rule)
     };
@@ -127,6 +128,7 @@ namespace cdsv {
         std::vector<uint64_t> m_uidseq;
         std::vector<int64_t> m_pinned;   // per key: -1 absent, else id
         unsigned m_supports;
+        std::atomic<int> m_inflight[16];  // per thread: (aop << 16 | key) of the call in progress, -1 if none
 
         int pick_op( Rng& rng )
         {
@@ -147,9 +149,11 @@ namespace cdsv {
             int64_t id = int64_t(( uint64_t( tid + 1 ) << 40 ) | ( ++m_uidseq[tid] ));
             Rec rc; rc.aop = aop;
             rc.op.tid = int( tid );
+            m_inflight[tid].store(( aop << 16 ) | ( key & 0xffff ));
             rc.op.inv = tick();
             SetRes r = m_c->exec( aop, key, id );
             rc.op.ret = tick();
+            m_inflight[tid].store( -1 );
             rc.op.op = r.mop; rc.op.a = r.a; rc.op.b = r.b; rc.op.r = r.r; rc.op.r2 = r.r2;
             rc.key = r.key;
             log.push_back( rc );
@@ -243,6 +247,7 @@ namespace cdsv {
         {
             m_seed = mix64( args().seed ) ^ mix64( std::hash<std::string>()( p.variant ));
             m_supports = A::supports();
+            for ( auto& f : m_inflight ) f.store( -1 );
         }
 
         void run()
@@ -276,7 +281,26 @@ namespace cdsv {
                 cdsv_rt_configure( m_seed + m_round, nc, stalls, expected_steps );
                 double ta = wall_now();
                 m_bar.wait();
-                m_bar.wait();
+                uint64_t hooks0 = cdsv_rt_counter( 0 );
+                if ( !m_bar.wait_for( m_plan.round_watchdog_s )) {
+                    // A round of a few hundred operations did not finish: name the operations in flight and stop the process
+                    // (the stuck threads cannot be recovered). Decided by the harness watchdog together with the spinning evidence.
+                    std::string stuck, first_op;
+                    for ( unsigned t = 0; t < T; ++t ) {
+                        int f = m_inflight[t].load();
+                        if ( f < 0 ) continue;
+                        if ( first_op.empty()) first_op = aop_names[f >> 16];
+                        stuck += ( stuck.empty() ? "" : ", " ) + std::string( "thread " ) + std::to_string( t ) + ": " + aop_names[f >> 16] + "(key " + std::to_string( f & 0xffff ) + ")";
+                    }
+                    std::string opkey = first_op; for ( char& ch : opkey ) if ( ch == ' ' || ch == '(' || ch == ')' ) ch = '_';
+                    violation( m_plan.prop, "no-progress:" + opkey + ":" + m_plan.variant,
+                               "round " + std::to_string( m_round ) + " did not finish within " + std::to_string( int( m_plan.round_watchdog_s )) + " s; operations still in flight: " + stuck
+                               + "; library atomic operations executed meanwhile by finished threads: " + std::to_string( cdsv_rt_counter( 0 ) - hooks0 ),
+                               "{\"variant\":" + jstr( m_plan.variant ) + ",\"round\":" + std::to_string( m_round ) + ",\"in_flight\":" + jstr( stuck ) + "}" );
+                    int rc = finish( "no-progress" );
+                    fflush( nullptr );
+                    _exit( rc );
+                }
                 uint64_t steps = cdsv_rt_counter( 5 );
                 if ( steps > 8 ) expected_steps = steps;
                 // quiescent reads: pin the state of every key (part of the history)
